@@ -44,7 +44,9 @@ DECOR = [('__version__ = "{version}"'), ("version='{version}'"), ("tag: {version
          ("badge/latest%20version-{version}-blue"), ("100%% {version}"),
          ("badge/{version}-blue"), ("{version}"), ("rev {version};"),
          # a docstring line and a CSV cell: as TOML basic strings they start with escaped quotes / with a comma
-         ('"""mypkg {version}"""'), (",{version},")]
+         ('"""mypkg {version}"""'), (",{version},"),
+         # escaped brackets (a markdown link text): given as ONE TOML string it must not be looked at character by character
+         ("see \\[{version}\\] notes")]
 
 
 def cases(ctx):
